@@ -24,6 +24,10 @@ type corruption struct {
 	Flags func(H uint64) []string // clauses violated (declared by construction)
 	Apply func(w *world, b *types.Block) error
 	Probe bool // malformed input outside the clause vector (nil fields): expected to be refused, nothing else is predicted
+	// Lcp (optional): the corruption places the voting power of the precommits the LastCommit
+	// carries; whether that is "more than two thirds" - the clause lastCommit - is then
+	// derived from the validator set, not declared
+	Lcp func(w *world) int64
 }
 
 func fl(s ...string) func(uint64) []string { return func(uint64) []string { return s } }
@@ -386,6 +390,25 @@ var catalogue = []corruption{
 		return nil
 	}},
 
+	// ---- the previous commit exactly on the two-thirds boundary: precommits are dropped until the
+	//      remaining ones carry the largest power a set of precommits can carry that is NOT more than
+	//      two thirds of the previous validators' power T (floor(2T/3) when the powers allow it:
+	//      invalid) or the smallest power that IS more than two thirds (floor(2T/3)+1 when the powers
+	//      allow it: a fully valid block); the Byzantine validator's own precommit is among the kept /
+	//      the dropped ones -----------------------------------------------------------------------------
+	{Name: "lastcommit/power-at-most-two-thirds/keep-own", MinH: 2, Flags: fl(), Lcp: func(w *world) int64 { return w.boundary(false) }, Apply: func(w *world, b *types.Block) error {
+		return trimCommit(w, b, w.boundary(false), 1)
+	}},
+	{Name: "lastcommit/power-at-most-two-thirds/drop-own", MinH: 2, Flags: fl(), Lcp: func(w *world) int64 { return w.boundary(false) }, Apply: func(w *world, b *types.Block) error {
+		return trimCommit(w, b, w.boundary(false), 0)
+	}},
+	{Name: "lastcommit/power-just-above-two-thirds/keep-own", MinH: 2, Flags: fl(), Lcp: func(w *world) int64 { return w.boundary(true) }, Apply: func(w *world, b *types.Block) error {
+		return trimCommit(w, b, w.boundary(true), 1)
+	}},
+	{Name: "lastcommit/power-just-above-two-thirds/drop-own", MinH: 2, Flags: fl(), Lcp: func(w *world) int64 { return w.boundary(true) }, Apply: func(w *world, b *types.Block) error {
+		return trimCommit(w, b, w.boundary(true), 0)
+	}},
+
 	// ---- evidence (EvidenceHash always repaired) ----------------------------------------------------
 	{Name: "fve/missing", MinH: 2, Flags: fl("fve"), Apply: func(w *world, b *types.Block) error {
 		i, _ := findFVE(b)
@@ -593,14 +616,77 @@ func byName(name string) *corruption {
 	return nil
 }
 
-// compose applies several corruptions of different field classes jointly.
-func compose(names []string, H uint64) (flags []string, apply func(w *world, b *types.Block) error, ok bool) {
+// boundary returns the voting power next to two thirds of the total that a set of
+// validators can add up to: above = false: the largest sum p with 3p <= 2T, above = true:
+// the smallest sum p with 3p > 2T (the model's Below / Above).
+func (w *world) boundary(above bool) int64 {
+	sums := map[int64]bool{0: true}
+	for _, p := range w.powers {
+		next := map[int64]bool{}
+		for s := range sums {
+			next[s], next[s+p] = true, true
+		}
+		sums = next
+	}
+	best := int64(-1)
+	for s := range sums {
+		if above && 3*s > 2*w.total && (best < 0 || s < best) {
+			best = s
+		}
+		if !above && 3*s <= 2*w.total && s > best {
+			best = s
+		}
+	}
+	return best
+}
+
+// trimCommit drops precommits of the block's LastCommit until the remaining ones carry
+// exactly `target` voting power of the previous validator set (LastCommitHash repaired).
+// own: 1 = the Byzantine validator's precommit stays, 0 = it goes.
+func trimCommit(w *world, b *types.Block, target int64, own int) error {
+	pcs := copyPrecommits(b)
+	vals := w.status.LastValidators.Validators
+	if len(pcs) != len(vals) || len(pcs) > 20 {
+		return fmt.Errorf("commit of %d slots for %d validators", len(pcs), len(vals))
+	}
+	slot := w.byzSlot()
+	for mask := 1; mask < 1<<uint(len(pcs)); mask++ {
+		sum, ok := int64(0), true
+		for i := range pcs {
+			if mask>>uint(i)&1 == 1 {
+				if pcs[i] == nil {
+					ok = false
+					break
+				}
+				sum += vals[i].VotingPower
+			}
+		}
+		if !ok || sum != target || (mask>>uint(slot)&1 == 1) != (own == 1) {
+			continue
+		}
+		for i := range pcs {
+			if mask>>uint(i)&1 == 0 {
+				pcs[i] = nil
+			}
+		}
+		setCommit(b, pcs)
+		return nil
+	}
+	return fmt.Errorf("no set of precommits of the honest commit (own %d) carries exactly %d of %d", own, target, w.total)
+}
+
+// compose applies several corruptions of different field classes jointly. lcpOf is non-nil
+// when one of them places the previous commit's voting power.
+func compose(names []string, H uint64) (flags []string, apply func(w *world, b *types.Block) error, lcpOf func(w *world) int64, ok bool) {
 	set := map[string]bool{}
 	var cs []*corruption
 	for _, n := range names {
 		c := byName(n)
 		if c == nil || !c.applies(H) {
-			return nil, nil, false
+			return nil, nil, nil, false
+		}
+		if c.Lcp != nil {
+			lcpOf = c.Lcp
 		}
 		cs = append(cs, c)
 		for _, f := range c.Flags(H) {
@@ -618,7 +704,7 @@ func compose(names []string, H uint64) (flags []string, apply func(w *world, b *
 			}
 		}
 		return nil
-	}, true
+	}, lcpOf, true
 }
 
 // group is the field class an entry belongs to (entries of one group touch the same fields
@@ -640,7 +726,7 @@ func group(name string) string {
 func pairsFor(H uint64, rng *rand.Rand, n int) [][]string {
 	var names []string
 	for _, c := range catalogue {
-		if c.applies(H) && !c.Probe {
+		if c.applies(H) && !c.Probe && c.Lcp == nil {
 			names = append(names, c.Name)
 		}
 	}
